@@ -45,39 +45,8 @@ OPSYM = {"AAdd": "+", "ASub": "-", "AMul": "*", "ADiv": "//", "AMod": "%", "AUSu
 
 
 # ------------------------------------------------------------------ helpers
-def bounds(k, s):
-    bits = 8 * k
-    return (-(2**(bits - 1)), 2**(bits - 1) - 1) if s else (0, 2**bits - 1)
-
-
-def type_grid(ty, rnd, size=None):
-    """Boundary grid of DESIGN C03 Search for numeric type ty=(k, signed, dec), in-range values only."""
-    k, s, d = ty
-    bits = 8 * k
-    lo, hi = bounds(k, s)
-    h = bits // 2
-    r = math.isqrt(hi)
-    must = {0, 1, 2, -1, -2, lo, lo + 1, hi, hi - 1}
-    cand = {2**h, -(2**h), 2**h - 1, 2**h + 1, -(2**h) - 1, 2**(bits - 1) - 1, 2**(bits - 1), 2**(bits - 1) + 1,
-            -(2**(bits - 1)) + 1, r, r + 1, r - 1, -r, -r - 1, -r + 1, 3, -3, 7, 10, hi // 2, lo // 2, hi // 3}
-    if d:
-        must |= {10**10, -(10**10)}
-        cand |= {3 * 10**10, 10**5, -(10**5), 10**10 + 1, 10**20, -(10**20), 5 * 10**9}
-    must = {v for v in must if lo <= v <= hi}
-    cand = sorted(v for v in cand if lo <= v <= hi and v not in must)
-    extra = [rnd.randrange(lo, hi + 1) for _ in range(2)]
-    if size is not None and len(must) + len(cand) > size:
-        cand = rnd.sample(cand, max(0, size - len(must)))
-    return sorted(must | set(cand) | set(extra))
-
-
-def tyname(ty):
-    k, s, d = ty
-    return "decimal" if d else f"{'int' if s else 'uint'}{8 * k}"
-
-
-def word(v):
-    return (v % W).to_bytes(32, "big")
+from vlib.c03_lib import (bounds, call_word, compare_rows, ir_snippet_code, run_code, type_grid, tyname,  # noqa: E402
+                          venom_snippet_code, word)
 
 
 def zlist(xs):
@@ -86,57 +55,14 @@ def zlist(xs):
 
 COQ_PRELUDE = """From Verif Require Import Base.Word256 C03.LIR C03.VSL C03.ArithSpec.
 Definition oc (o : outcome) : Z := match o with Val v => v | Revert => -1 | Stuck => -2 | Unit => -3 end.
+Definition prs (G : list Z) (unary : bool) : list (Z * Z) := if unary then map (fun x => (x, 0)) G else list_prod G G.
 Definition spec_row (T : nty) (op : aop) (G : list Z) (unary : bool) : list Z :=
-  map (fun p => oc (enc_out (arith_spec T op (fst p) (snd p)))) (if unary then map (fun x => (x, 0)) G else list_prod G G).
+  map (fun p => oc (enc_out (arith_spec T op (fst p) (snd p)))) (prs G unary).
 """
 
 
 def pairs(g, unary):
     return [(x, 0) for x in g] if unary else [(x, y) for x in g for y in g]
-
-
-# ------------------------------------------------------------------ (1) LIR differential / template search
-def run_ir_snippet(chain, node, cases):
-    """Compile the legacy IR expression `node` (free variables x, y) with the REAL compile_ir + assembler and
-    run it on pyrevm for each (x, y).  Returns list of word | -1 (revert)."""
-    from vyper.codegen.ir_node import IRnode
-    from vyper.compiler.settings import OptimizationLevel
-    from vyper.evm.assembler.core import assembly_to_evm
-    from vyper.ir import compile_ir
-    with X.settings_ctx():
-        ir = IRnode.from_list(["with", "x", ["calldataload", 0], ["with", "y", ["calldataload", 32],
-                               ["seq", ["mstore", 0, node], ["return", 0, 32]]]])
-        asm = compile_ir.compile_to_assembly(ir, OptimizationLevel.NONE)
-        code, _ = assembly_to_evm(asm)
-    addr = chain.set_code(None, code)
-    out = []
-    for x, y in cases:
-        r = chain.call(addr, word(x) + word(y))
-        out.append(int.from_bytes(r.out, "big") if r.ok and len(r.out) == 32 else -1)
-    return out
-
-
-def run_venom_snippet(chain, tmpl, cases):
-    """Print the exported Venom template with the REAL printer, wrap it in a function reading x, y from calldata,
-    parse it with the real parser, run the -O none pipeline + venom back end, execute on pyrevm."""
-    from vyper.compiler.settings import OptimizationLevel, Settings, VenomOptimizationFlags, anchor_settings
-    from vyper.evm.assembler.core import assembly_to_evm
-    from vyper.venom import generate_assembly_experimental, run_passes_on
-    from vyper.venom.parser import parse_venom
-    ins, r = tmpl
-    body = "\n".join("  " + str(i).rstrip() for i in ins)
-    text = f"function main {{\nmain:\n  %1 = calldataload 0\n  %2 = calldataload 32\n{body}\n  mstore 0, {r}\n  return 0, 32\n}}\n"
-    with anchor_settings(Settings(optimize=OptimizationLevel.NONE)):
-        vctx = parse_venom(text)
-        run_passes_on(vctx, VenomOptimizationFlags(level=OptimizationLevel.NONE), disable_mem_checks=True)
-        asm = generate_assembly_experimental(vctx, OptimizationLevel.NONE)
-        code, _ = assembly_to_evm(asm)
-    addr = chain.set_code(None, code)
-    out = []
-    for x, y in cases:
-        res = chain.call(addr, word(x) + word(y))
-        out.append(int.from_bytes(res.out, "big") if res.ok and len(res.out) == 32 else -1)
-    return out
 
 
 def template_differential(ctx, templates, gen_compiled, kind, only_types=None):
@@ -160,38 +86,30 @@ def template_differential(ctx, templates, gen_compiled, kind, only_types=None):
     if gen_compiled:
         imports += ("Definition lev_row (n : nat) (G : list Z) (unary : bool) : list Z :=\n"
                     f"  match nth_error {table} n with\n"
-                    f"  | Some (_, _, t) => map (fun p => oc ({ev})) "
-                    "(if unary then map (fun x => (x, 0)) G else list_prod G G)\n  | None => [] end.\n")
-    exprs = []
+                    f"  | Some (_, _, t) => map (fun p => oc ({ev})) (prs G unary)\n  | None => [] end.\n")
+    chain = Chain("cancun")
+    rows, meta = [], []
+    n_eval = 0
     for j in idx:
         op, ty, n = templates[j]
         un = "true" if op == "AUSub" else "false"
         gi = tys.index(ty)
-        e = f"spec_row {X.nty(*ty)} {op} G{gi} {un}"
-        if gen_compiled:
-            e = f"({e}) ++ (lev_row {j} G{gi} {un})"
-        exprs.append(e)
-    outs = coqrun.eval_zlists(imports, exprs, "c03" + kind, shard=20, timeout=900)
-    chain = Chain("cancun")
-    n_eval = 0
-    bad_model, failing = [], []
-    for j, o in zip(idx, outs):
-        op, ty, n = templates[j]
         cs = pairs(grids[ty], op == "AUSub")
-        spec = o[:len(cs)]
-        lev = o[len(cs):] if gen_compiled else None
-        assert len(spec) == len(cs) and (lev is None or len(lev) == len(cs)), (op, ty, len(o), len(cs))
-        got = run_ir_snippet(chain, n, cs) if kind == "legacy" else run_venom_snippet(chain, n, cs)
+        code = ir_snippet_code(n) if kind == "legacy" else venom_snippet_code(n)
+        obs = run_code(chain, code, cs)
         n_eval += len(cs)
-        for i, c in enumerate(cs):
-            if got[i] != spec[i]:
-                failing.append((op, ty, c, spec[i], got[i], n))
-                break
-        if lev is not None:
-            for i, c in enumerate(cs):
-                if lev[i] != got[i]:
-                    bad_model.append((op, ty, c, lev[i], got[i]))
-                    break
+        rows.append({"spec": f"spec_row {X.nty(*ty)} {op} G{gi} {un}",
+                     "model": f"lev_row {j} G{gi} {un}" if gen_compiled else None, "obs": obs})
+        meta.append((op, ty, n, cs, obs))
+    res = compare_rows(imports, rows, "c03" + kind)
+    bad_model, failing = [], []
+    for (op, ty, n, cs, obs), (sm, mm) in zip(meta, res):
+        for i, e in sm[:1]:
+            c = cs[i] if 0 <= i < len(cs) else ("?", "?")
+            failing.append((op, ty, c, e, obs[i] if 0 <= i < len(obs) else None, n))
+        for i, e in mm[:1]:
+            c = cs[i] if 0 <= i < len(cs) else ("?", "?")
+            bad_model.append((op, ty, c, e, obs[i] if 0 <= i < len(obs) else None))
     ctx.corr[kind + "_template_cases"] = n_eval
     return n_eval, failing, bad_model
 
@@ -232,26 +150,18 @@ def glue_differential(ctx, tys, cfgs, size, want=None):
     imports += ("Definition nest_row (T : nty) (G : list Z) : list Z :=\n"
                 "  map (fun p => oc (enc_out (match arith_spec T ASub (fst p) (snd p) with\n"
                 "     | Val v => arith_spec T AAdd v (snd p) | o => o end))) (list_prod G G).\n")
-    exprs, meta = [], []
+    specs = {}
     for i, ty in enumerate(tys):
         for fn, aop in GLUE_OPS:
             if aop == "AUSub" and not ty[1]:
                 continue
-            exprs.append(f"spec_row {X.nty(*ty)} {aop} G{i} {'true' if aop == 'AUSub' else 'false'}")
-            meta.append((ty, fn, aop))
-        exprs.append(f"spec_row {X.nty(*ty)} AMul G{i} false")
-        meta.append((ty, "st", "AMul"))
-        exprs.append(f"nest_row {X.nty(*ty)} G{i}")
-        meta.append((ty, "nest", "nest"))
-    outs = coqrun.eval_zlists(imports, exprs, "c03glue", shard=40, timeout=900)
-    expected = {}
-    for (ty, fn, aop), o in zip(meta, outs):
-        cs = pairs(grids[ty], aop == "AUSub")
-        assert len(o) == len(cs), (ty, fn, len(o), len(cs))
-        expected[(ty, fn)] = (cs, o)
+            specs[(ty, fn)] = (f"spec_row {X.nty(*ty)} {aop} G{i} {'true' if aop == 'AUSub' else 'false'}",
+                               pairs(grids[ty], aop == "AUSub"))
+        specs[(ty, "st")] = (f"spec_row {X.nty(*ty)} AMul G{i} false", pairs(grids[ty], False))
+        specs[(ty, "nest")] = (f"nest_row {X.nty(*ty)} G{i}", pairs(grids[ty], False))
     n_eval = 0
-    failing = []
     dist = {}
+    rows, meta = [], []
     for cfg in cfgs:
         chain = Chain(cfg.evm)
         for ty in tys:
@@ -265,23 +175,25 @@ def glue_differential(ctx, tys, cfgs, size, want=None):
             addr = chain.deploy(bytes.fromhex(out["bytecode"][2:]))
             sels = {sig.split("(")[0]: int(h, 16).to_bytes(4, "big") for sig, h in out["method_identifiers"].items()}
             for fn in ("add", "sub", "mul", "div", "mod", "usub", "st", "nest"):
-                if (ty, fn) not in expected:
+                if (ty, fn) not in specs:
                     continue
-                cs, exp = expected[(ty, fn)]
+                spec, cs = specs[(ty, fn)]
                 sel = sels[fn]
-                hit = False
-                for (x, y), e in zip(cs, exp):
-                    data = sel + word(x) + (b"" if fn == "usub" else word(y))
-                    r = chain.call(addr, data)
-                    got = int.from_bytes(r.out, "big") if r.ok and len(r.out) == 32 else -1
-                    n_eval += 1
-                    dist[fn] = dist.get(fn, 0) + 1
-                    if got != e and not hit:
-                        hit = True
-                        failing.append({"type": tyname(ty), "function": fn, "config": cfg.name, "args": [str(x), str(y)],
-                                        "expected": "revert" if e == -1 else hex(e),
-                                        "observed": "revert" if got == -1 else hex(got),
-                                        "calldata": data.hex(), "source": src})
+                obs = [call_word(chain, addr, sel + word(x) + (b"" if fn == "usub" else word(y))) for x, y in cs]
+                n_eval += len(cs)
+                dist[fn] = dist.get(fn, 0) + len(cs)
+                rows.append({"spec": spec, "obs": obs})
+                meta.append((ty, fn, cfg, cs, obs, sel, src))
+    res = compare_rows(imports, rows, "c03glue", shard=150)
+    failing = []
+    for (ty, fn, cfg, cs, obs, sel, src), (sm, _) in zip(meta, res):
+        for i, e in sm[:1]:
+            x, y = cs[i] if 0 <= i < len(cs) else (0, 0)
+            got = obs[i] if 0 <= i < len(obs) else None
+            failing.append({"type": tyname(ty), "function": fn, "config": cfg.name, "args": [str(x), str(y)],
+                            "expected": "revert" if e == -1 else hex(e),
+                            "observed": "revert" if got == -1 else (hex(got) if got is not None else "?"),
+                            "calldata": (sel + word(x) + (b"" if fn == "usub" else word(y))).hex(), "source": src})
     ctx.corr["glue_cases"] = ctx.corr.get("glue_cases", 0) + n_eval
     for k_, v_ in dist.items():
         ctx.corr.setdefault("glue_distribution", {})[k_] = ctx.corr.get("glue_distribution", {}).get(k_, 0) + v_
